@@ -255,7 +255,7 @@ def id_kinds(rep, prog):
                         rep.ok("C08.id-kinds", prog, fn, n, "%s = %s" % (l["ref"]["name"], a))
 
 
-def _is_renumber_loop(n, lst_key):
+def _is_renumber_loop(n, lst_key, partial_ok=None):
     if n.get("k") != "ForStmt":
         return False
     for x in walk(n["body"]):
@@ -267,7 +267,18 @@ def _is_renumber_loop(n, lst_key):
                 if e1.handle_key(base) == lst_key and idx.get("k") == "DeclRefExpr" and a.get("k") == "DeclRefExpr" and a["ref"]["did"] == idx["ref"]["did"]:
                     c = strip(n.get("cond") or {})
                     if c.get("k") == "BinaryOperator" and c.get("op") == "<" and strip(c["c"][1]).get("callee", "").endswith("::size"):
-                        return True
+                        return "partial" if partial_ok is None and not _starts_at_zero(n) else True
+    return False
+
+
+def _starts_at_zero(loop):
+    init = loop.get("init")
+    if not isinstance(init, dict):
+        return False
+    for d in init.get("decls", []) or []:
+        if isinstance(d.get("init"), dict):
+            v = strip(d["init"])
+            return v.get("k") == "IntegerLiteral" and v.get("v") == "0"
     return False
 
 
@@ -283,7 +294,13 @@ def renumber(rep, prog):
                 changes.append(n)
             if n.get("k") == "CallExpr" and n.get("callee") == "remove_index" and e1.handle_key(call_args(n)[0]) == lst_key:
                 changes.append(n)
-        loops = [n for n in walk(fn["body"]) if _is_renumber_loop(n, lst_key)]
+        loops = [n for n in walk(fn["body"]) if _is_renumber_loop(n, lst_key) is True]
+        for n in walk(fn["body"]):
+            if _is_renumber_loop(n, lst_key) == "partial":
+                rep.violation("C08.renumber-after-resize", prog, fn, n, "renumbering does not start at the head of the list",
+                              "%s: the loop 'list[i]->set_local_id(i)' starts at %s instead of 0: the cells in front of that position keep the local ids they had before the population changed "
+                              "(the removal list is filled in completion order of the threads, its first element need not be the smallest index), so a cell's local id no longer equals its place in the list"
+                              % (qn, short(n["init"], 60)))
         if not changes:
             raise AnalysisBroken("%s: no population change found" % qn)
         loop_units = set()
@@ -332,8 +349,8 @@ def _witness_ok(fi, fn, change, loops, lst_key):
                             src = srcs.pop()
                             blocks_w = {id(fi.enclosing(x, ("CompoundStmt",))) for x in walk(fn["body"]) if x.get("k") == "CXXMemberCallExpr" and x.get("callee", "").endswith("::push_back") and e1.handle_key(call_obj(x)) == W}
                             blocks_s = {id(fi.enclosing(x, ("CompoundStmt",))) for x in walk(fn["body"]) if x.get("k") == "CXXMemberCallExpr" and x.get("callee", "").endswith("::push_back") and e1.handle_key(call_obj(x)) == src}
-                            if blocks_s and blocks_s <= blocks_w:
-                                return True
+                            if blocks_s and blocks_s <= blocks_w and fi.order[id(change)] < fi.order[id(l)]:
+                                return True      # appended BEFORE the guarded renumbering, and non-empty exactly when W is
     return False
 
 
@@ -413,6 +430,14 @@ def couplings_fresh(rep, prog):
     if contact_i is None:
         raise AnalysisBroken("run_iteration: contact phase not found")
     bad = []
+    # the reset of the couplings happens inside the contact phase: if that phase is skipped under some condition while the readers
+    # of the couplings still run, the couplings of the previous iteration (indices into a population that may have shrunk) are used
+    cs = stmts[contact_i]
+    if cs.get("k") in ("IfStmt", "SwitchStmt", "ForStmt", "WhileStmt") or any(x.get("k") == "ConditionalOperator" for x in walk(cs)):
+        later = [j for j in range(contact_i + 1, len(stmts)) if ((phase_keys(stmts[j]) & readers) - {run_fn["key"]})]
+        if later:
+            bad.append((cs, "runs the contact phase (which resets every node's coupling) only conditionally, while %s reads the couplings unconditionally: when the phase is skipped the couplings of the previous "
+                            "iteration survive, although cells may have been removed since (index past the end of the population / into a released cell)" % short(stmts[later[0]], 60)))
     for i, s in enumerate(stmts):
         keys = phase_keys(s)
         reads = keys & readers - {run_fn["key"]}
@@ -425,6 +450,14 @@ def couplings_fresh(rep, prog):
             later_readers = [j for j in range(i + 1, len(stmts)) if (phase_keys(stmts[j]) & readers) - {run_fn["key"]}]
             if later_readers:
                 bad.append((s, "changes the population between the contact phase and a later reader of the couplings in the same iteration"))
+        # a coupling stores (cell index, NODE index): compacting a node list (cell::rebase, reached e.g. through mesh_writer::write)
+        # between the creation of the couplings and their last reader makes the stored node indices designate other nodes
+        renumbers = {k for k in keys if prog.functions[k]["qn"] in ("cell::rebase", "cell::remove_unused_nodes")}
+        if renumbers and contact_i < i:
+            later_readers = [j for j in range(i + 1, len(stmts)) if (phase_keys(stmts[j]) & readers) - {run_fn["key"]}]
+            if later_readers:
+                bad.append((s, "may renumber the nodes of a cell (%s) between the contact phase, which stores (cell index, node index) couplings, and a later reader of those couplings (%s): the stored node indices then designate different nodes"
+                            % (", ".join(sorted(prog.functions[k]["qn"] for k in renumbers)), short(stmts[later_readers[-1]], 60))))
     if not bad:
         rep.ok("C08.couplings-fresh", prog, it, stmts[contact_i], "all coupling readers of run_iteration run after the contact phase; divisions precede it and removals follow the last reader")
     for s, why in bad:
